@@ -63,6 +63,8 @@ def run(ctx):
     E.run_builds(cases)
     # wide tables (field ids up to 2000) opened inside each other to depth 20..100: the vtable stack passes 64 KB while ancestors are open
     E.wide_nested_topdown(rng, 18 if not ctx.thorough else 200)
+    # tables at the 64 KB limit of the vtable: small fields at every inline offset around 65531 (fits iff the table size 4 + data <= 65535), read back
+    E.table_size_limit(rng, 10 if not ctx.thorough else 100)
     # probe (full UBSan incl. alignment): a struct with force_align 16 written through the generated <struct>_create
     if 'bnest' in E.HP:
         s = E.by_name['bnest']
@@ -153,7 +155,8 @@ def run(ctx):
         if c.himpl is not None and c.mimpl is not None and c.hrep != c.mrep and not unexplained():
             what = [k for k in ('refs', 'align', 'start', 'end', 'bytes', 'emits') if c.himpl.get(k) != c.mimpl.get(k)]
             ctx.violation('corr:build:' + '+'.join(what), 'model and implementation disagree on a build script (%s differ)' % ','.join(what),
-                          {'harness_line': c.h, 'model_line': c.m, 'schema': c.schema.name, 'impl': c.hrep[:3000], 'model': c.mrep[:3000]})
+                          {'theorem_or_correspondence': 'correspondence of the extracted builder model (coq/Builder, modelrun_builder) with src/runtime/builder.c on this script; every independent clause check (format decoder, alignment, read-back, verifier) passed on the implementation output', 'harness_line': c.h, 'model_line': c.m, 'schema': c.schema.name, 'impl': c.hrep[:3000], 'model': c.mrep[:3000]},
+                          kind='no-failing-input-found')
     ctx.cov['generator_histogram']['shared_object_uses'] = nshared
     if dump_items: ctx.sample({'dump_case': dump_items[0][1][:200], 'dump': (dres[0] or '')[:300], 'expected': bu.render_dump(dump_cases[0].schema, dump_cases[0].node, dump_cases[0].root)[:300]})
     ctx.trusted = lib.DEFAULT_TRUSTED + ['checks/builder_util.py (generators, expected renderings, generated dump glue over the reader accessors, PyReader)',
